@@ -555,6 +555,8 @@ Step2(rec, extra) ==
             THEN Append(nop, IF rec.a = "ReadOnly" THEN rec.cmd ELSE "repeat")
             ELSE IF Gen /\ rec.a = "Ckpt" /\ rec.kind = "human" /\ rec.files = {}
             THEN Append(nop, "human-ckpt")       \* a pre-edit / redundant human checkpoint (C14)
+            ELSE IF Gen /\ rec.a \in {"CherryPickR", "CherryPickManyR", "RebaseR"}
+            THEN Append(nop, rec.how)            \* how a conflict episode was concluded does not show in the state
             ELSE nop
   /\ hist' = IF Gen THEN Append(hist, rec) ELSE hist
   /\ l' = l + 1
@@ -1151,6 +1153,80 @@ CherryPickMany(seq) ==
         /\ Step([a |-> "CherryPickMany", cs |-> seq,
                  exp |-> IF Gen THEN [nc |-> r.nc, t |-> r.tree[r.last]] ELSE <<>>])
 
+\* ---- operations that STOP on a conflict (C02: "with conflicts resolved and continued", "aborted ... leaves every
+\* note and all pending attribution exactly as it was", "all points at which a conflict stops the operation").
+\* One action = the whole episode: the command stops, the person resolves every conflicted file in the way `res`,
+\* stages it and concludes with `how`.  The intermediate work tree (conflict markers) is not a model state.
+\*   res  "theirs": the conflicted file is taken as the replayed commit has it
+\*        "union" : our version followed by the lines the replayed commit adds
+\*   how  "continue" (--continue), "commit" (cherry-pick concluded by a plain commit), "abort" (--abort)
+AddedLines(o, f) == LET p == TreeOf(par[o])[f] c == tree[o][f]
+                    IN SelectSeq(c, LAMBDA x : x \notin LinesOf(p))
+ResolveFile(base, o, f, res) == IF res = "theirs" THEN tree[o][f] ELSE base[f] \o AddedLines(o, f)
+ResolvedTree(base, o, res) ==
+  [f \in File |-> IF Applies(base[f], TreeOf(par[o])[f], tree[o][f])
+                  THEN ApplyHunks(base[f], HunksOf(TreeOf(par[o])[f], tree[o][f]))
+                  ELSE ResolveFile(base, o, f, res)]
+\* the resolution brings in nothing but our lines and the lines the replayed commit itself adds (taking "theirs"
+\* wholesale can drag in lines of earlier, un-picked commits: whose they are afterwards is not what C02 is about)
+NoForeign(base, o, nt) == \A f \in File : LinesOf(nt[f]) \subseteq LinesOf(base[f]) \cup LinesOf(AddedLines(o, f))
+NoDupUids(t) == \A f \in File : Cardinality(UidsOf(t[f])) = Len(t[f])
+\* replay `chain` on `on`, resolving conflicts with res; [tree, par, ckind, notes, nc, last, stops]
+RECURSIVE RunR(_, _, _, _, _, _, _)
+RunR(chain, on, T, P, K, st, res) ==
+  IF chain = <<>> THEN [tree |-> T, par |-> P, ckind |-> K, notes |-> st.notes, nc |-> st.nc, last |-> on, stops |-> st.stops,
+                        ok |-> st.ok]
+  ELSE LET o  == Head(chain)
+           k  == st.nc + 1
+           cf == ~PatchOK(T[on], TreeOf(par[o]), tree[o])
+           nt == IF cf THEN ResolvedTree(T[on], o, res) ELSE PatchTree(T[on], TreeOf(par[o]), tree[o])
+           N2 == [st.notes EXCEPT ![k] = FollowNote(notes, o, nt, T[on])]
+       IN RunR(TLCEval(Tail(chain)), k, TLCEval([T EXCEPT ![k] = nt]), TLCEval([P EXCEPT ![k] = on]),
+               TLCEval([K EXCEPT ![k] = st.kind]),
+               TLCEval([notes |-> N2, nc |-> k, kind |-> st.kind, stops |-> st.stops + (IF cf THEN 1 ELSE 0),
+                        ok |-> st.ok /\ NoDupUids(nt) /\ nt # T[on] /\ NoForeign(T[on], o, nt)]), res)
+RunStart(kind) == [notes |-> notes, nc |-> nc, kind |-> kind, stops |-> 0, ok |-> TRUE]
+\* the command leaves everything git-ai knows as it was (evaluated on the observed next state)
+AbortViol == IF Gen THEN {}
+             ELSE IF wl' # wl \/ ini' # ini \/ notes' # notes THEN {"C02_AbortNoop"} ELSE {}
+
+ConflictEpisode(kind, chain, on, res, how, rec) ==
+  LET r == RunR(chain, on, tree, par, ckind, RunStart(kind), res)
+  IN
+  /\ Guard(/\ NoAgentDirty /\ stash = <<>> /\ wt = HeadTree /\ idx = HeadTree
+           /\ nc + Len(chain) <= MaxCommit /\ r.ok /\ r.stops >= 1)
+  /\ UNCHANGED <<truth, nu, der, dirty, stash, snote>>
+  /\ IF how = "abort"
+     THEN /\ GitAdopt(SameG) /\ AiSame(SameG) /\ ops' = ops
+          /\ Step2([rec EXCEPT !.exp = IF Gen THEN [nc |-> nc, t |-> HeadTree, stops |-> 1] ELSE <<>>], AbortViol)
+     ELSE LET ok == IF Gen THEN TRUE
+                    ELSE (nc + Len(chain) <= MaxCommit /\ on # 0 /\ (\A i \in DOMAIN chain : chain[i] \in 1..nc) /\ r.ok)
+              rr == IF ok THEN r ELSE Unmodelled
+              g  == NG2(rr.tree[rr.last], rr.tree[rr.last], rr.tree, rr.par, KindNew(kind, rr.nc), rr.nc, rr.last, tip2, side)
+          IN /\ GitAdopt(g)
+             \* As built, a cherry-pick that is concluded with a plain `git commit` instead of --continue is
+             \* an ordinary commit to git-ai: the lines of the original commit arrive as the resolver's own
+             \* (deviation "pick_concluded_by_commit": attribution is lost, nothing is invented).
+             /\ AiAdopt(g, [wl EXCEPT ![rr.last] = wl[head], ![head] = EmptyWL],
+                           [ini EXCEPT ![rr.last] = ini[head], ![head] = NoMaps], rr.notes,
+                           IF how = "commit" /\ "pick_concluded_by_commit" \in Dev /\ ok
+                              /\ \E c \in (nc + 1)..rr.nc : \E f \in File : HasAI(rr.notes[c].files[f])
+                           THEN {"pick_concluded_by_commit"} ELSE {})
+             /\ ops' = ops \cup {kind}
+             /\ Step([rec EXCEPT !.exp = IF Gen THEN [nc |-> r.nc, t |-> r.tree[r.last], stops |-> r.stops] ELSE <<>>])
+
+CherryPickR(o, res, how) ==
+  /\ Guard(tip2 # 0 /\ o \in Ancestors(tip2) \ Ancestors(head))
+  /\ ConflictEpisode("cherry", <<o>>, head, res, how, [a |-> "CherryPickR", c |-> o, res |-> res, how |-> how, exp |-> <<>>])
+CherryPickManyR(seq, res, how) ==
+  /\ Guard(/\ tip2 # 0 /\ Len(seq) = 2 /\ seq[1] < seq[2]
+           /\ \A i \in DOMAIN seq : seq[i] \in Ancestors(tip2) \ Ancestors(head))
+  /\ ConflictEpisode("cherry", seq, head, res, how, [a |-> "CherryPickManyR", cs |-> seq, res |-> res, how |-> how, exp |-> <<>>])
+RebaseR(res, how) ==
+  LET mb == MergeBase(head, tip2) chain == ChainFrom(mb, head) IN
+  /\ Guard(tip2 # 0 /\ mb # head /\ mb # tip2 /\ how # "commit")
+  /\ ConflictEpisode("rebase", chain, tip2, res, how, [a |-> "RebaseR", res |-> res, how |-> how, exp |-> <<>>])
+
 GenRewrite ==
   \/ "branch" \in Alphabet /\ MakeBranch
   \/ "switch" \in Alphabet /\ Switch
@@ -1163,6 +1239,10 @@ GenRewrite ==
         IN /\ Len(full) > n
            /\ \E plan \in PlansFor(SubSeq(full, Len(full) - n + 1, Len(full))) : IRebase(n, plan)
   \/ "cherry_many" \in Alphabet /\ \E a \in 1..nc, b \in 1..nc : CherryPickMany(<<a, b>>)
+  \/ "conflict" \in Alphabet /\ \E res \in {"theirs", "union"}, how \in {"continue", "commit", "abort"} :
+        \/ \E o \in 1..nc : CherryPickR(o, res, how)
+        \/ RebaseR(res, how)
+        \/ \E a \in 1..nc, b \in 1..nc : CherryPickManyR(<<a, b>>, res, how)
 
 -----------------------------------------------------------------------------
 (* Initial states *)
@@ -1270,10 +1350,14 @@ TrAmend  == IsEv("Amend") /\ Amend
 TrIRebase == IsEv("IRebase") /\ IRebase(Ev.n, Ev.plan)
 TrCherryMany == IsEv("CherryPickMany") /\ CherryPickMany(Ev.cs)
 TrSquash == IsEv("MergeSquash") /\ MergeSquash
+TrCherryR == IsEv("CherryPickR") /\ CherryPickR(Ev.c, Ev.res, Ev.how)
+TrCherryManyR == IsEv("CherryPickManyR") /\ CherryPickManyR(Ev.cs, Ev.res, Ev.how)
+TrRebaseR == IsEv("RebaseR") /\ RebaseR(Ev.res, Ev.how)
 
 TraceNext ==
   /\ ~Gen
-  /\ \/ TrIRebase \/ TrCherryMany \/ TrMv \/ TrBranch \/ TrSwitch \/ TrRebase \/ TrCherry \/ TrAmend \/ TrSquash
+  /\ \/ TrCherryR \/ TrCherryManyR \/ TrRebaseR
+     \/ TrIRebase \/ TrCherryMany \/ TrMv \/ TrBranch \/ TrSwitch \/ TrRebase \/ TrCherry \/ TrAmend \/ TrSquash
      \/ TrReadOnly \/ TrCkptRepeat
      \/ TrReset \/ TrEdit \/ TrCkpt \/ TrAdd \/ TrCommit
      \/ TrResetHard \/ TrResetKeep \/ TrDiscard \/ TrStashPush \/ TrStashPop
